@@ -422,7 +422,6 @@ PROPOSED = {
     "cycle_collector_strong_box_cycle": ("K18h", "findings/C18-K18h.scm"),
     "mark_shared_immutable_exponential": ("K18i", "findings/C18-K18i.scm"),
     "display_cycle_label_lookup": ("K18j", "findings/C18-K18j.scm"),
-    "cycle_collector_untracked_before_mutable": ("K18k", "findings/C18-K18k.scm"),
 }
 PRINT_OPS = ("display-port", "write-port", "print-port", "host-display", "host-debug")
 
@@ -606,7 +605,7 @@ def replay_text(shape, op, n, stack, bound, src, verdict, detail, classes):
 def run(ctx):
     rng = random.Random(ctx.seed * 1000003 + 18)
     stats = {"cases": 0, "ok": 0, "error_value": 0, "fail": 0, "known": 0, "violations": 0, "text_checked": 0,
-             "matrix": {}, "by_class": {}, "samples": [], "slowest": []}
+             "matrix": {}, "by_class": {}, "samples": [], "slowest": [], "model_disagreements": [], "retried": 0}
     # translate
     rc, out = C.sh(["python3", os.path.join(C.VERIF, "translate", "c18_traversals.py")], timeout=120)
     tr_lines = [l for l in out.splitlines() if l.startswith("c18_traversals:")]
@@ -614,8 +613,15 @@ def run(ctx):
         ctx.violation("C18-translator.txt", "translate/c18_traversals.py failed (rc=%d): the traversal code no longer has the "
                       "shape the scan expects\n%s" % (rc, out[-3000:]), no_input=True)
     pr = C.prove(ctx, PID, ["SteelVerif.C18.GenTraversals", "c18driver"])
+    recheck = "not run (thorough tier only)"
+    if not ctx.quick() and pr["ok"]:
+        with C._Lock("lake"):
+            rc2, out2 = C.sh(["lake", "env", "leanchecker", "SteelVerif.C18.Props"], cwd=C.LEAN, timeout=1200)
+        recheck = "ok" if rc2 == 0 else "FAILED: " + out2[-500:]
+        if rc2 != 0:
+            ctx.violation("C18-leanchecker.txt", "leanchecker rejects SteelVerif.C18.Props:\n" + out2[-3000:], no_input=True)
     ok, log = C.build_harness(ctx, [BIN])
-    base_cov = {"obligations": pr["obligations"], "discharged": pr["discharged"],
+    base_cov = {"leanchecker": recheck,"obligations": pr["obligations"], "discharged": pr["discharged"],
                 "checker_cmd": "cd lean && lake build SteelVerif.C18.Props && lake env lean SteelVerif/C18/Audit.lean",
                 "trusted_base": C.TRUSTED_BASE + ["translate/c18_traversals.py (regex / brace matching over the impls named in its header)"]}
     if not ok or not os.path.exists(C.driver_path("c18driver")):
@@ -714,14 +720,38 @@ def run(ctx):
         stats["slowest"].append((round(results[i]["secs"], 1), shape, op, n, st, verdict))
         if verdict == "ok":
             stats["ok"] += 1
+            # the tie in the other direction: where the model says the code never returns, the code must not return
+            mp = pred.get(model_shape(shape) or "", {})
+            strict = {"equal-copy": ["eq"], "host-eq": ["eq"], "gc-live": ["mark"], "hash-code": ["hash"],
+                      "display-port": ["collect", "print-depth"], "host-display": ["collect", "print-depth"]}
+            for mo in strict.get(op, []):
+                if shape.startswith("cycle:") and mo in mp and mp[mo][0] == "diverges":
+                    stats["model_disagreements"].append("%s %s stack=%s: model op %s diverges (%s), the real engine answered" % (
+                        shape, op, st, mo, mp[mo][1]))
             if len(stats["samples"]) < 3 and op == "display-port" and wt:
                 stats["samples"].append({"shape": shape, "op": op, "size": n, "stack": st, "real": [l for l in results[i]["lines"] if l.startswith("=> text")][0][:90], "S": wt[:90]})
             continue
         if verdict == "error-value":
             stats["error_value"] += 1       # the property allows an error value
             continue
-        stats["fail"] += 1
         classes = explain(shape, op, verdict, detail, pred, table)
+        if verdict == "timeout" and not classes and stats["retried"] < 12:
+            # nothing in the model explains a hang here: the machine is shared, so ask again, alone, with six times the bound,
+            # before calling it a violation
+            stats["retried"] += 1
+            again = run_case(src, st, bound * 6)
+            v2, d2 = judge(again, exp, wt)
+            ctx.log("retry %s %s size=%d stack=%s: first %s, alone with bound %ds: %s (%.1fs)" % (shape, op, n, st, verdict, bound * 6, v2, again["secs"]))
+            verdict, detail = v2, d2
+            cell[verdict] = cell.get(verdict, 0) + 1
+            if verdict == "ok":
+                stats["ok"] += 1
+                continue
+            if verdict == "error-value":
+                stats["error_value"] += 1
+                continue
+            classes = explain(shape, op, verdict, detail, pred, table)
+        stats["fail"] += 1
         listed_classes = [k for k in classes if k in known]
         if classes and listed_classes:
             stats["known"] += 1
@@ -739,6 +769,10 @@ def run(ctx):
         kid, rp = known[k]
         ctx.known_finding("id=%s class=%s replay=%s %d failing cases, e.g. %s" % (kid, k, rp, v["count"], v["example"]))
 
+    if stats["model_disagreements"]:
+        ctx.violation("C18-model-vs-code.txt", "the model (configuration scanned from the source) says these operations never return, "
+                      "the real engine returned: the model no longer follows the code\n" + "\n".join(stats["model_disagreements"][:40]) + "\n",
+                      no_input=True)
     if not pr["ok"] and not ctx.violations:
         ctx.violation("C18-proof-broken.txt", "proof obligations of SteelVerif.C18.Props that no longer check:\n" +
                       "\n".join("%s: %s" % f for f in pr["failed"]) + "\n", no_input=True)
@@ -753,8 +787,9 @@ def run(ctx):
                 "2 MiB thread, wall-clock bound; verdict = survival + termination + result lines / printed text vs S",
         "passed": stats["ok"], "error_values": stats["error_value"], "failing_cases": stats["fail"],
         "failing_attributed_to_known_classes": stats["known"], "violations": stats["violations"],
-        "texts_compared_with_S": stats["text_checked"], "matrix": stats["matrix"], "known_classes": stats["by_class"],
+        "texts_compared_with_S": stats["text_checked"], "timeouts_asked_again_alone": stats["retried"], "matrix": stats["matrix"], "known_classes": stats["by_class"],
         "model_predictions": dict((s, dict((k, v[0] + ":" + v[1]) for k, v in p.items() if v[0] != "constant")) for s, p in pred.items()),
+        "model_says_diverges_but_code_returned": stats["model_disagreements"][:20],
         "translator": tr_lines, "samples": stats["samples"], "slowest": stats["slowest"][:8],
         "axioms": pr.get("axioms", {}), "proof_failures": ["%s: %s" % f for f in pr["failed"]],
     })
